@@ -547,6 +547,9 @@ type Gen struct {
 
 func (g *Gen) count(k string) { g.Stats[k]++ }
 
+// LookalikePieces is exported for the exhaustive string sweep of fmth.
+func LookalikePieces() [][]byte { return lookalikePieces }
+
 var utf8Pieces = [][]byte{
 	{0xC2, 0x80}, {0xC3, 0xA9}, {0xDF, 0xBF}, // 2-byte boundaries
 	{0xE0, 0xA0, 0x80}, {0xE2, 0x82, 0xAC}, {0xED, 0x9F, 0xBF}, {0xEE, 0x80, 0x80}, {0xEF, 0xBF, 0xBD}, {0xEF, 0xBF, 0xBF},
@@ -554,6 +557,11 @@ var utf8Pieces = [][]byte{
 	{0xF0, 0x90, 0x80, 0x80}, {0xF0, 0x9F, 0x98, 0x80}, {0xF4, 0x8F, 0xBF, 0xBF}, {0xF1, 0x80, 0x80, 0x80},
 }
 var sepPieces = [][]byte{{0xE2, 0x80, 0xA8}, {0xE2, 0x80, 0xA9}}
+
+// literal text that looks like the escapes the encoder produces (a backslash is data here), and the characters those
+// escapes stand for: a formatter that edits its output textually confuses the two
+var lookalikePieces = [][]byte{[]byte(`\u003c`), []byte(`\u003e`), []byte(`\u0026`), []byte(`\u2028`), []byte(`\u2029`), []byte(`\n`), []byte(`\"`), []byte(`\\`),
+	[]byte(`\u00`), []byte(`\u`), []byte(`\ufffd`), []byte(`\\u003c`), []byte("<"), []byte(">"), []byte("&"), {0xE2, 0x80, 0xA8}, {0xE2, 0x80, 0xA9}, []byte(`u003c`), []byte(`\`)}
 var badPieces = [][]byte{
 	{0x80}, {0xBF}, {0xC0, 0x80}, {0xC1, 0xBF}, {0xC2}, {0xC2, 0x7F}, {0xC2, 0xC0}, {0xE0, 0x9F, 0xBF}, {0xE0, 0xA0}, {0xE0, 0xA0, 0x7F},
 	{0xED, 0xA0, 0x80}, {0xED, 0xBF, 0xBF}, {0xEF, 0xBF}, {0xF0, 0x8F, 0xBF, 0xBF}, {0xF0, 0x90, 0x80}, {0xF0, 0x90, 0x80, 0xC0},
@@ -566,6 +574,9 @@ func (g *Gen) String(maxPieces int) []byte {
 	n := g.R.Intn(maxPieces + 1)
 	for i := 0; i < n; i++ {
 		switch x := g.R.Intn(100); {
+		case x < 8:
+			s = append(s, lookalikePieces[g.R.Intn(len(lookalikePieces))]...)
+			g.count("str:escape-lookalike")
 		case x < 30:
 			s = append(s, byte(32+g.R.Intn(95)))
 			g.count("str:printable")
